@@ -121,6 +121,8 @@ def form_of(st):
     k = st[0]
     if k == "await":
         return "await-" + expr_kind(st[1])
+    if k in ("delay", "delayw", "delayo") and isinstance(st[1], int):
+        return k + "/int"  # delay given as a Python int (whole seconds) rather than a float
     return k
 
 
@@ -1120,13 +1122,15 @@ def _family(name, tier):
         leaf = [("delay", d) for d in (D0, DSUB, D1, DHALF, DBIG)] + \
                [("delayw", d, em) for d in (D0, D1) for em in emits] + \
                [("delayw", DHALF, "one"), ("delayw", DSUB, "two")]
+        # Python-int delays (whole seconds) in every yield form: bare, tuple with side effects, inside yield from
+        leaf += [("delay", 0), ("delay", 1), ("delayw", 1, "one"), ("delayw", 0, "two")]
         if not q:
-            leaf += [("delay", 0), ("delay", 2), ("delayw", DBIG, "later")]
+            leaf += [("delay", 2), ("delayw", DBIG, "later"), ("delayw", 2, "none")]
         sub_leaf = [("delay", D0), ("delay", D1), ("delayw", D0, "one")]
-        alpha = with_subs(leaf, sub_leaf, 2)
+        alpha = with_subs(leaf, sub_leaf, 2) + [("sub", (("delay", 1),)), ("sub", (("delayw", 1, "one"),))]
         small = [("delay", D0), ("delay", DSUB), ("delay", D1), ("delay", DBIG), ("delayw", D0, "one"),
                  ("delayw", D1, "two"), ("sub", (("delay", D1),)), ("sub", (("delayw", D0, "later"),)),
-                 ("sub", ())]
+                 ("sub", ()), ("delay", 1), ("sub", (("delayw", 1, "one"),))]
         rets = ["none", "one", "two", "empty"]
         A = []
         cfgs = [("entity", "none"), ("entity", "ctor"), ("entity", "add"), ("once", "add")]
@@ -1141,7 +1145,7 @@ def _family(name, tier):
                         A.append(((3, style, hooks, steps, ret),))
         else:
             for steps in seqs(alpha, 3):
-                for ret in rets:
+                for ret in (rets if len(steps) < 3 else ("two", "none")):  # 3-step scripts: 2 return forms
                     for style, hooks in cfgs:
                         A.append(((0, style, hooks, steps, ret),))
             for steps in seqs(small, 4, 4):
@@ -1162,6 +1166,10 @@ def _family(name, tier):
         elif name == "await-half":
             d_a, d_b = DSUB, DHALF
             times = (0, 499_999_999, 500_000_000, 500_000_001)
+            maxlen, maxres = (2, 2) if q else (3, 2)
+        elif name == "await-int":  # delays given as Python ints (0 and 1 whole second)
+            d_a, d_b = 0, 1
+            times = (0, NS - 1, NS, NS + 1)
             maxlen, maxres = (2, 2) if q else (3, 2)
         else:  # await-big
             d_a, d_b = D1, DBIG
@@ -1189,6 +1197,8 @@ def _family(name, tier):
                 if pre and len(rs) > 2:
                     continue  # pre-resolved futures are combined with <= 2 resolver actions
                 for order in ("P", "R"):
+                    if q and pre and order == "R":
+                        continue  # quick: pre-resolved futures with the default creation order only
                     B.append((rs, pre, order, "auto"))
         B += [(rs, (), "P", "end") for rs in res_schedules(times[:3], (0, 1), 2)]
         return A, B, {"processes": 1, "steps<=": maxlen, "alphabet": len(alpha), "delays": [d_a, d_b],
@@ -1252,7 +1262,7 @@ def _family(name, tier):
                     for st1 in ((0, 1) if k == 0 else (0,)):
                         A.append(((0, "entity", "ctor", a, "one"), (st1, "entity", "add", b, "none")))
         B = [((), (), "P", "auto")]
-        for t in (0, 1, 2):
+        for t in ((0, 1) if q else (0, 1, 2)):
             for f in (0, 1, 2):
                 B.append((((t, f),), (), "R", "auto"))
         B.append((((1, 2), (1, 2)), (), "P", "end"))
@@ -1285,12 +1295,14 @@ def _family(name, tier):
         # side effects handed over through ONE reused list object (edited in place between yields), the same
         # list object as return value / hook result
         alpha = [("delayo", d, ed) for d in (D0, D1) for ed in ("keep", "clear", "append", "replace")] + \
-                [("delay", D1), ("await", F0, "late")]
+                [("delay", D1), ("await", F0, "late"), ("delayo", 1, "append")]
         if not q:
             alpha += [("delayo", DHALF, "append"), ("delayw", D0, "two"), ("sub", (("delayo", D1, "replace"),))]
         A = []
         for steps in seqs(alpha, 3 if q else 4):
             for ret, hooks in (("box", "ctor"), ("one", "box"), ("box", "none")):
+                if len(steps) == 4 and hooks != "ctor":
+                    continue  # 4-step scripts (thorough): one return/hook configuration
                 A.append(((0, "entity", hooks, steps, ret),))
         B = [((), (), "P", "auto"), ((), (), "P", "end"), ((), (), "P", "ctl"),
              (((0, 0),), (), "P", "auto"), (((1, 0),), (), "R", "end"), (((2, 0),), (), "P", "auto")]
@@ -1325,7 +1337,7 @@ def _family(name, tier):
     raise KeyError(name)
 
 
-FAMILIES = ["delays", "await", "await-half", "await-big", "combinators", "combinators-seq", "two-procs",
+FAMILIES = ["delays", "await", "await-half", "await-big", "await-int", "combinators", "combinators-seq", "two-procs",
             "hooks-late", "falsy-values", "outbox"]
 
 
